@@ -28,6 +28,12 @@ def bt_body(b):
     return '`' + (b or 'q') + '`'
 
 
+def br_body(b):
+    """[bracket-quoted name] (T-SQL, SQLite): any non-empty body without brackets"""
+    b = b.replace('[', '').replace(']', '')
+    return '[' + (b or 'q') + ']'
+
+
 def dollar_body(b, tag):
     term = '$' + tag + '$'
     return term + strip_term(b, term) + term
